@@ -34,3 +34,14 @@ def request():  # noqa: F811  (keeps the request for is_known)
     global _REQ
     _REQ = json.loads(sys.stdin.read() or "{}")
     return _REQ
+
+
+def _crash(tp, val, tb):
+    """A crashing driver must not look like 'nothing found': say so explicitly (the check treats it as not reproduced and prints it)."""
+    import traceback
+    print(json.dumps(dict(reproduced=False, detail="REPLAY DRIVER CRASHED: %s: %s" % (tp.__name__, val), crashed=True,
+                          traceback="".join(traceback.format_exception(tp, val, tb))[-1500:])))
+    sys.__excepthook__(tp, val, tb)
+
+
+sys.excepthook = _crash
